@@ -598,9 +598,9 @@ func fromNativeEndian(v ssa.Value) bool {
 // collection expressions (as rendered inside len(...)) of the walks checked by
 // ruleCollectionExhausted
 const (
-	collDBINames   = `lmdbenv\.ReadDBINames@\w+#0`
+	collDBINames   = `lmdbenv\.ReadDBINames@[\w~]+#0`
 	collSnapDBIs   = `[^()]*\.Databases`
-	collLocalNames = `local:\w+|\*?alloc:[\w.]+|lmdbenv\.ReadDBINames@\w+#0`
+	collLocalNames = `local:[\w~]+|\*?alloc:[\w.~]+|lmdbenv\.ReadDBINames@[\w~]+#0`
 )
 
 // COLLECTION-EXHAUSTED: the listed functions walk a collection (the DBIs of a
@@ -611,7 +611,7 @@ const (
 // remaining DBIs are not merged / dumped / mirrored / swept and the
 // transaction still commits. allowed lists, per function, the conditions under
 // which an early successful end is intended.
-func ruleCollectionExhausted(c *Check, rule, name, coll string, allowed func(p *Path) bool) {
+func ruleCollectionExhausted(c *Check, rule, name, coll, what string, allowed func(p *Path) bool) {
 	collRe := regexp.MustCompile(`len\((` + coll + `)\)`)
 	fn, paths := c.walkFn(rule, name, WalkConfig{Memo: true, MaxPaths: 120000,
 		KeepAtom: func(a Atom) bool {
@@ -673,10 +673,10 @@ func ruleCollectionExhausted(c *Check, rule, name, coll string, allowed func(p *
 			continue
 		}
 		bad++
-		c.Bad(rule, name+"/early-success", "the function returns successfully from inside the walk over "+coll+" (before the last element was handled): the remaining elements are skipped and the enclosing transaction still commits", c.pathPos(p), describe(c, p))
+		c.Bad(rule, name+"/early-success", "the function returns successfully from inside the walk over "+what+" (before the last element was handled): the remaining elements are skipped and the enclosing transaction still commits", c.pathPos(p), describe(c, p))
 	}
 	if bad == 0 {
-		c.Ok(rule, name+"/collection-exhausted", fmt.Sprintf("%d path classes through the walk over %s: every successful return (%d) lies behind the end of that loop", nLoop, coll, nEnd), c.P.Pos(fn.Pos()))
+		c.Ok(rule, name+"/collection-exhausted", fmt.Sprintf("%d path classes through the walk over %s: every successful return (%d) lies behind the end of that loop", nLoop, what, nEnd), c.P.Pos(fn.Pos()))
 	}
 	c.Floor(rule, nLoop, 2, "paths through the collection loop of "+name)
 	c.Floor(rule, nEnd, 1, "successful ends behind the collection loop of "+name)
